@@ -76,7 +76,7 @@ def gen(rng, tier):
         d2 = rng.choice([x for x in pool if x['Sigma'] == d1['Sigma']])
         cases.append({'D1': d1, 'D2': _rename(rng, d2)})
     for _ in range(400 if quick else 5000):
-        sigma = rng.choice(['a', 'ab', 'abc', 'abcd', 'xyz'])
+        sigma = rng.choice(['a', 'ab', 'abc', 'abcd', 'xyz', ''])
         d1 = G.random_dfa(rng, rng.randint(1, 6), sigma)
         x = rng.random()
         if x < 0.3:
